@@ -84,7 +84,13 @@ class Fragment:
             nonlocal separated
             if node.is_text:
                 text_node = cast("TextNode", node)
-                text.append(text_node.text[max(from_, pos) - pos : to - pos])
+                # from_/to/pos count UTF-16 code units, not code points
+                units = text_node.text.encode("utf-16-le")
+                text.append(
+                    units[2 * (max(from_, pos) - pos) : 2 * max(to - pos, 0)].decode(
+                        "utf-16-le",
+                    ),
+                )
                 separated = not block_separator
             elif node.is_leaf:
                 if leaf_text:
